@@ -393,5 +393,7 @@ def check(ctx: Ctx, col: Collector, tier: str) -> None:
     good = bool(fl) and all(render(t.value).endswith("\n") for t in fl)
     (col.ok if good else col.bad)("C02.TODO-LINES", f"{GEN}::_create_todo_msg::ends-with-newline", repo.loc(GEN, em.funcs["_create_todo_msg"].node),
                                   f"{[render(t.value)[-20:] for t in fl]}", *([] if good else ["the TODO block does not end with a line break: the following declaration is commented out"]))
+    from .shared import share
+    share(ctx, col, "C10", {"C10.WRITE-MODE"}, "a stub file has exactly one header: placeholder stubs are created once and only appended to afterwards")
     col.assume("Python identifiers of the analysed package are ASCII; numbers are rendered by str() of an int/float")
     col.assume("semantic validity (name resolution) and layout are not decided here")
